@@ -1914,6 +1914,7 @@ class Exec(Engine):
                 raise Undecided('contract %s names loop #%d but the function has %d loops'
                                 % (c.qualname, ordn, len(self.loop_ordinals)))
         n_before = len(self.obligations)
+        n_normal = 0
         for st in self.entry_states(c, fnode, fn):
             params = dict(st.frames[st.cur])
             st.live_exc = VExc(BaseException, {}, tag='live')
@@ -1934,6 +1935,7 @@ class Exec(Engine):
                 if c.modifies is not None:
                     self.check_frame(c, entry, s, params, fnode, kind)
                 if kind in ('normal', 'return'):
+                    n_normal += 1
                     result = NONE if kind == 'normal' else payload
                     b = dict(params)
                     b['result'] = result
@@ -1950,6 +1952,9 @@ class Exec(Engine):
                     self.check_raise(c, payload, s, params, entry, fnode)
                 else:
                     raise Undecided('break/continue escaped %s' % c.qualname)
+        if n_normal == 0 and not c.opts.get('never_returns'):
+            # vacuity guard: a function all of whose paths raise or are infeasible proves every postcondition
+            raise Undecided('no path of %s returns normally (modelling gap or contradictory requires)' % c.qualname)
         return self.obligations[n_before:]
 
     def region_body(self, c, fnode):
@@ -1989,6 +1994,10 @@ class Exec(Engine):
                 return node
 
         import copy as _copy
+        # imports made earlier in the function stay (they only bind names)
+        for k in range(0, starts[0]):
+            if isinstance(fnode.body[k], (ast.Import, ast.ImportFrom)):
+                out.append(fnode.body[k])
         for k in range(starts[0], len(srcs)):
             hit = [d for d in drops if srcs[k].startswith(d)]
             if hit:
